@@ -13,7 +13,7 @@ EXPLANATION = (
     "derivative on the stated box; cos/sin of eps enter through rational enclosures, sqrt(1 - eps^2) through its contract); "
     "and the gradient/Hessian contributions are e^T Omega J_i and J_i^T Omega J_j for every vertex pair i <= j of the n-ary edge."
 )
-BOUNDS = "7 error-function families (incl. one in arbitrarily small units and one whose error aliases the pose object) x 4 pose types; box |coordinates| <= 10 for the bounded (non-exact) families"
+BOUNDS = "7 error-function families (incl. one in arbitrarily small units and one whose error aliases the pose object) x 4 pose types; box |coordinates| <= 10 for the bounded (non-exact) families; 8 histories (edge differentiated at one state, vertices moved in place / rebound or measurement replaced, differentiated again)"
 OUTSIDE = "NOT decided: truncation bounds for rotational increments of the SE(3) relative-pose family (only its translation increments, where the forward difference is exact, are checked); NOT decided: the truncation bound of the relative-pose family for the entries d(translation rows)/d(rotation of the reference vertex) (degree-3 inequality with trig/sqrt enclosures: both z3 versions answer unknown within 10 minutes); NOT decided: 'graphs built from such edges converge to the same optimum as with exact Jacobians' (multi-iteration numerical convergence, same obstacle as C05); floating-point cancellation error 2u|e|/eps of the difference quotient"
 ASSUMPTIONS = ["dual-number derivative semantics (validated against central differences)", "unit quaternions", "rational enclosures of cos(1e-6), sin(1e-6)", "sqrt contract"]
 
